@@ -560,6 +560,15 @@ def _pigeonhole_retain(f, r, sts, ret, sv, N):
         if neg and slot_of(res) is not None and expand(slot_of(res)) == expand(idx_expr) and read_pos is not None and read_pos < marks[0][0]:
             ok = True
         det = {"idx": T.sx_show(expand(idx_expr)), "result": T.sx_show(res)}
+    # form 3: the result is `!mem::replace(&mut seen[idx], true)` - read and mark in one step
+    if not ok and tail is not None and tail[0] == "expr" and not early and not marks and not nested_marks:
+        res = tail[1]
+        if res[0] == "un" and res[1] == "Not" and res[2][0] == "call" and res[2][1] == "core::mem::replace" and len(res[2][2]) == 2 \
+                and slot_of(res[2][2][0]) is not None and res[2][2][1] == ("lit", True):
+            idx_expr = slot_of(res[2][2][0])
+            others = [x for st in csts[:-1] for e in T.stmt_exprs(st) for x in T.sx_walk(e) if isinstance(x, tuple) and x and x[0] == "call" and x[1] == "core::mem::replace"]
+            ok = not others
+            det = {"idx": T.sx_show(expand(idx_expr)), "form": "mem::replace"}
     # form 2: `if seen[idx] { false } else { seen[idx] = true; true }`
     if not ok and tail is not None and tail[0] == "if" and isinstance(tail[1], tuple) and slot_of(tail[1]) is not None and not early:
         idx_expr = slot_of(tail[1])
@@ -636,6 +645,7 @@ def cost_write(ctx):
     def check_blocks(fn_suffix, label):
         name = _fn(f, fn_suffix, r)
         sts = T.stmts(f.thir[name]["body"], {"__noinline__": True})
+        lv = T.let_values(sts)
         n = [0]
 
         def term(x):
@@ -665,8 +675,20 @@ def cost_write(ctx):
             if costs or writes:
                 n[0] += 1
 
+                def resolve(t):
+                    # a local whose value is a literal counts as that literal; one bound to a computed amount is treated like a
+                    # computed amount written in place (not a whole-codeword constant: outside this rule) unless both sides use it
+                    if t[0] == "var":
+                        v = term(T.look_through(t, lv))
+                        if v[0] == "lit":
+                            return v
+                    return t
+                cs, ws = [resolve(t) for t in costs], [resolve(t) for t in writes]
+                both = {t[1] for t in cs if t[0] == "var"} & {t[1] for t in ws if t[0] == "var"}
+
                 def norm(ts):
-                    return (sum(t[1] for t in ts if t[0] == "lit" and isinstance(t[1], int)), sorted(t[1] for t in ts if t[0] == "var"))
+                    return (sum(t[1] for t in ts if t[0] == "lit" and isinstance(t[1], int)), sorted(t[1] for t in ts if t[0] == "var" and t[1] in both))
+                costs, writes = cs, ws
                 obs.append(Ob(r, "%s:block%d" % (label, n[0]), norm(costs) == norm(writes), "%s: a block prices %s whole codeword(s) and books %s into the symbol-fill counter" % (label, norm(costs), norm(writes)),
                               site=stl[0][-1] if stl and isinstance(stl[0][-1], str) else None))
         visit(sts)
